@@ -246,6 +246,62 @@ theorem issamedir_iff_init_eq (a : Bool) (as bs : List Str) (ha : Clean as) (hb 
     issamedir (mk a as) (mk a bs) = .ok (decide (as.dropLast = bs.dropLast)) := by
   exact issamedir_mkp a as bs ha hb hna hnb
 
+/-! ## splitext (not named in the property statement; characterises the code as it is)
+
+`splitext` on a normalised path: no dot in the last component or a dot file → the path itself and no
+extension; otherwise, when what precedes the last dot is itself a clean component, root ++ ext is the
+path (`splitext_concat_partial`).  The hypothesis is needed: a last component whose stem consists of
+dots only (`..a`, `...a`) is resolved away by the `join` inside `splitext`
+(`splitext_dots_stem_witness`, replayed on fs.path.splitext by the correspondence) — `os.path.splitext`
+returns the path unchanged there.  Recorded in DESIGN §6 C12 as an observation outside C12's statement. -/
+
+theorem splitext_no_dot (a : Bool) (cs : List Str) (c : Str) (h : Clean (cs ++ [c])) (hd : '.' ∉ c) :
+    splitext (mk a (cs ++ [c])) = .ok (mk a (cs ++ [c]), []) := by
+  simp only [mk_eq_mkp]
+  unfold splitext
+  rw [split_mkp_snoc a cs c h]
+  simp only [rsplit1_none '.' c hd]
+  split <;> rfl
+
+theorem splitext_dotfile (a : Bool) (cs : List Str) (r : Str) (h : Clean (cs ++ [('.' :: r)])) (hd : '.' ∉ r) :
+    splitext (mk a (cs ++ [('.' :: r)])) = .ok (mk a (cs ++ [('.' :: r)]), []) := by
+  simp only [mk_eq_mkp]
+  unfold splitext
+  rw [split_mkp_snoc a cs _ h]
+  have : List.count '.' r = 0 := List.count_eq_zero.2 hd
+  simp [this]
+
+theorem splitext_concat_partial (a : Bool) (cs : List Str) (stem ext : Str)
+    (h : Clean (cs ++ [stem ++ '.' :: ext])) (hs : CleanComp stem) (hext : '.' ∉ ext) :
+    splitext (mk a (cs ++ [stem ++ '.' :: ext])) = .ok (mk a (cs ++ [stem]), '.' :: ext) := by
+  have hcs : Clean cs := (clean_append.1 h).1
+  have hst : Clean (cs ++ [stem]) := clean_append.2 ⟨hcs, clean_cons.2 ⟨hs, by intro c hc; cases hc⟩⟩
+  simp only [mk_eq_mkp]
+  unfold splitext
+  rw [split_mkp_snoc a cs _ h]
+  have hcond : ((stem ++ '.' :: ext).head? == some '.' && (stem ++ '.' :: ext).count '.' == 1) = false := by
+    obtain ⟨hne, -⟩ := hs
+    cases stem with
+    | nil => exact absurd rfl hne
+    | cons x xs =>
+      by_cases hx : x = '.'
+      · subst hx
+        simp [List.count_append]
+      · simp [hx]
+  simp only [hcond, rsplit1_some '.' stem ext hext]
+  have hj := join_split_mkp a (cs ++ [stem]) hst
+  rw [split_mkp_snoc a cs stem hst] at hj
+  simp only [Bool.false_eq_true, if_false] 
+  rw [hj]; rfl
+
+
+theorem splitext_dots_stem_witness :
+    splitext "foo/..a".toList = .ok ("foo".toList, ".a".toList) ∧
+    splitext "foo/...a".toList = .ok ([], ".a".toList) := by decide
+
+example : splitext "/foo/bar.tar.gz".toList = .ok ("/foo/bar.tar".toList, ".gz".toList) := by decide
+example : CleanComp "bar.tar".toList := by simp [CleanComp, dot, dotdot]
+
 /-! ## non-vacuity -/
 
 example : Clean [['f', 'o', 'o'], ['a', '.', 'b'], ['*', '{', 'x', '}']] := by
